@@ -4036,3 +4036,370 @@ func init() {
 	txt = "a copy has somewhere to go: where copy(dst[k:], src) writes into a slice made in the same function, the slice is longer than k (make([]byte, 8, 8+n) followed by copy(buf[8:], props) copies nothing: every variable-length datatype message loses its base type)"
 	shareRule([]string{"C12", "C11", "C05"}, txt, "C12", func(c *Ctx, r *Result, id string) { emptyWindowRule(c, r, id, 5) })
 }
+
+// ======== round 9: small exact rules, second part ========
+
+func (c *Ctx) coreConst(name string) (int64, bool) {
+	p := c.PkgByID["core"]
+	if p == nil {
+		return 0, false
+	}
+	k, ok := p.Types.Scope().Lookup(name).(*types.Const)
+	if !ok {
+		return 0, false
+	}
+	v, exact := constant.Int64Val(k.Val())
+	return v, exact
+}
+
+// groupHeaderOrderRule: in an object header literal that carries a group-defining message and a dataspace message, the
+// group-defining one comes first (the reader classifies an object by the first such message it meets).
+func groupHeaderOrderRule(c *Ctx, r *Result, rule string) {
+	ds, ok1 := c.coreConst("MsgDataspace")
+	li, ok2 := c.coreConst("MsgLinkInfo")
+	st, ok3 := c.coreConst("MsgSymbolTable")
+	lm, ok4 := c.coreConst("MsgLinkMessage")
+	if !(ok1 && ok2 && ok3 && ok4) {
+		r.Undec(rule, "core#message-type-constants", "", "message type constants not found")
+		return
+	}
+	n := 0
+	for _, fn := range c.LibFuncs() {
+		arrays := map[ssa.Value]map[int64]int64{}
+		pos := map[ssa.Value]ssa.Instruction{}
+		// an element built as a local literal and stored whole: *(&arr[i]) = *lit
+		litType := map[ssa.Value]int64{}
+		instrs(fn, func(in ssa.Instruction) {
+			stI, ok := in.(*ssa.Store)
+			if !ok {
+				return
+			}
+			if fa, isFA := stI.Addr.(*ssa.FieldAddr); isFA {
+				if f, base := fieldOfAddr(fa); f != nil && fieldKey(base.Type(), f) == "core.MessageWriter.Type" {
+					if _, isAlloc := base.(*ssa.Alloc); isAlloc {
+						if typ, okT := constInt(stripConv(stI.Val)); okT {
+							litType[base] = typ
+						}
+					}
+				}
+			}
+		})
+		instrs(fn, func(in ssa.Instruction) {
+			stI, ok := in.(*ssa.Store)
+			if !ok {
+				return
+			}
+			ia, isIA := stI.Addr.(*ssa.IndexAddr)
+			if !isIA {
+				return
+			}
+			ld, isLd := isLoad(stI.Val)
+			if !isLd {
+				return
+			}
+			typ, known := litType[ld.X]
+			idx, okI := constInt(ia.Index)
+			if !known || !okI {
+				return
+			}
+			if arrays[ia.X] == nil {
+				arrays[ia.X] = map[int64]int64{}
+				pos[ia.X] = in
+			}
+			arrays[ia.X][idx] = typ
+		})
+		instrs(fn, func(in ssa.Instruction) {
+			stI, ok := in.(*ssa.Store)
+			if !ok {
+				return
+			}
+			fa, ok := stI.Addr.(*ssa.FieldAddr)
+			if !ok {
+				return
+			}
+			f, base := fieldOfAddr(fa)
+			if f == nil || fieldKey(base.Type(), f) != "core.MessageWriter.Type" {
+				return
+			}
+			ia, ok := base.(*ssa.IndexAddr)
+			if !ok {
+				return
+			}
+			idx, okI := constInt(ia.Index)
+			typ, okT := constInt(stripConv(stI.Val))
+			if !okI || !okT {
+				return
+			}
+			if arrays[ia.X] == nil {
+				arrays[ia.X] = map[int64]int64{}
+				pos[ia.X] = in
+			}
+			arrays[ia.X][idx] = typ
+		})
+		for arr, m := range arrays {
+			first, dsAt := int64(-1), int64(-1)
+			for i := int64(0); i < int64(len(m)); i++ {
+				t, ok := m[i]
+				if !ok {
+					break
+				}
+				if (t == li || t == st || t == lm) && first < 0 {
+					first = i
+				}
+				if t == ds && dsAt < 0 {
+					dsAt = i
+				}
+			}
+			if first < 0 || dsAt < 0 {
+				continue
+			}
+			n++
+			r.Check(first < dsAt, rule, c.Name(fn)+"#group-message-before-dataspace", c.InstrPos(pos[arr]), fmt.Sprintf("the group-defining message is message %d, the dataspace message is message %d of the header", first, dsAt))
+		}
+	}
+	if n < 1 {
+		r.Shortfall(c, rule, rule+": no object header literal with a group-defining and a dataspace message found")
+	}
+}
+
+// fixedRecordCursorRule: a cursor that fills windows of a loop-invariant width advances by a loop-invariant amount.
+func fixedRecordCursorRule(c *Ctx, r *Result, rule string, floor int) {
+	n := 0
+	for _, fn := range c.LibFuncs() {
+		if fn.Blocks == nil {
+			continue
+		}
+		var fb *FB
+		k := 0
+		done := map[*ssa.Phi]bool{}
+		instrs(fn, func(in ssa.Instruction) {
+			sl, ok := in.(*ssa.Slice)
+			if !ok || sl.Low == nil || sl.High == nil {
+				return
+			}
+			phi, isPhi := stripConv(sl.Low).(*ssa.Phi)
+			if !isPhi || done[phi] {
+				return
+			}
+			hdr := phi.Block()
+			loop := naturalLoop(hdr)
+			if !loop[sl.Block()] || len(loop) < 2 {
+				return
+			}
+			// the window is a copy destination
+			isDst := false
+			for _, ref := range *sl.Referrers() {
+				if call, isCall := ref.(*ssa.Call); isCall {
+					if b, isB := call.Call.Value.(*ssa.Builtin); isB && b.Name() == "copy" && call.Call.Args[0] == ssa.Value(sl) {
+						isDst = true
+					}
+				}
+			}
+			if !isDst {
+				return
+			}
+			if fb == nil {
+				fb = c.FB(fn)
+			}
+			invariant := func(l Lin) bool {
+				for sym := range l.T {
+					var v ssa.Value
+					switch s := sym.(type) {
+					case lenKey:
+						v = s.v
+					case ssa.Value:
+						v = s
+					default:
+						return false
+					}
+					if in2, isInstr := v.(ssa.Instruction); isInstr && loop[in2.Block()] {
+						return false
+					}
+				}
+				return true
+			}
+			w := fb.lin(sl.High).add(fb.lin(sl.Low), -1)
+			if w.isConst() || !invariant(w) {
+				return
+			}
+			for i, p := range hdr.Preds {
+				if !hdr.Dominates(p) {
+					continue
+				}
+				inc := fb.lin(phi.Edges[i]).add(fb.lin(phi), -1)
+				done[phi] = true
+				n++
+				k++
+				r.Check(invariant(inc), rule, fmt.Sprintf("%s#cursor-of-fixed-width-records-%d", c.Name(fn), k), c.InstrPos(sl), fmt.Sprintf("windows of %s bytes are filled at a cursor that advances by %s per iteration", fb.linString(w), fb.linString(inc)))
+			}
+		})
+	}
+	if n < floor {
+		r.Shortfall(c, rule, fmt.Sprintf("%s: only %d cursors over fixed-width windows found (expected >= %d)", rule, n, floor))
+	}
+}
+
+func init() {
+	// C03: AddKey's child, header order
+	id := nextRuleID("C03")
+	registry["C03"].Meta.Rules[id] = "a group's B-tree points at its symbol table node: in every call of BTreeNodeV1.AddKey(key, child) the child address is a computed value, never a constant (with key and child exchanged the reader skips child address 0 and the reopened root group is silently empty)"
+	registry["C03"].Rules = append(registry["C03"].Rules, func(c *Ctx, r *Result) {
+		n := 0
+		for _, fn := range c.LibFuncs() {
+			k := 0
+			for _, site := range callsIn(fn) {
+				if c.calleeName(site) != "structures.BTreeNodeV1.AddKey" {
+					continue
+				}
+				args := site.Common().Args
+				n++
+				k++
+				_, isK := constInt(stripConv(args[len(args)-1]))
+				r.Check(!isK, id, fmt.Sprintf("%s#child-address-of-AddKey-%d", c.Name(fn), k), c.InstrPos(site.(ssa.Instruction)), "the child address handed to AddKey is not a constant")
+			}
+		}
+		if n < 3 {
+			r.Shortfall(c, id, fmt.Sprintf("%s: only %d calls of AddKey", id, n))
+		}
+	})
+	txt := "a group is written so that it reads back as a group: in an object header literal that carries a group-defining message (link info, link, symbol table) and a dataspace message, the group-defining one comes first - the reader takes the first of these it meets as the object's kind (with the two exchanged every dense group reopens as a dataset)"
+	shareRule([]string{"C03", "C06"}, txt, "C03", func(c *Ctx, r *Result, id string) { groupHeaderOrderRule(c, r, id) })
+
+	// C10 / C01: fixed-width records
+	txt = "fixed-width elements are placed one element apart: where a loop copies into windows buf[cur:cur+W] with a loop-invariant W, the cursor advances by a loop-invariant amount (offset += len(strBytes) for offset += elemSize packs the strings of a fixed-length string dataset back to back)"
+	shareRule([]string{"C10", "C01"}, txt, "C10", func(c *Ctx, r *Result, id string) { fixedRecordCursorRule(c, r, id, 1) })
+
+	// C11: member count mask, dataspace arguments
+	id11 := nextRuleID("C11")
+	registry["C11"].Meta.Rules[id11] = "the version 1 compound parser keeps the member count the encoder admits: the mask ParseCompoundType applies to the class bit field for the member count is at least the bound EncodeCompoundDatatypeV1 tests len(fields) against (0xFF against 65535: a compound with 256 members decodes to an empty one)"
+	registry["C11"].Rules = append(registry["C11"].Rules, func(c *Ctx, r *Result) {
+		pf, ef := c.FnOpt("core.ParseCompoundType"), c.FnOpt("core.EncodeCompoundDatatypeV1")
+		cons := "core.ParseCompoundType~core.EncodeCompoundDatatypeV1#member-count-width"
+		if pf == nil || ef == nil {
+			r.Undec(id11, cons, "", "parser or encoder not found")
+			return
+		}
+		var mask, bound int64 = -1, -1
+		var at ssa.Instruction
+		instrs(pf, func(in ssa.Instruction) {
+			if bo, ok := in.(*ssa.BinOp); ok && bo.Op == token.AND && valueReadsField(bo.X, "core.DatatypeMessage.ClassBitField", 0) {
+				if m, isK := constInt(bo.Y); isK {
+					mask, at = m, in
+				}
+			}
+		})
+		instrs(ef, func(in ssa.Instruction) {
+			if bo, ok := in.(*ssa.BinOp); ok && bo.Op == token.GTR {
+				if call, isCall := stripConv(bo.X).(*ssa.Call); isCall {
+					if b, isB := call.Call.Value.(*ssa.Builtin); isB && b.Name() == "len" {
+						if k, isK := constInt(bo.Y); isK && k > bound {
+							bound = k
+						}
+					}
+				}
+			}
+		})
+		if mask < 0 || bound < 0 {
+			r.Undec(id11, cons, c.Pos(pf.Pos()), "mask or bound not recognised")
+			return
+		}
+		r.Check(mask >= bound, id11, cons, c.InstrPos(at), fmt.Sprintf("the parser keeps count & %#x; the encoder admits up to %d members", mask, bound))
+	})
+	txt = "a dataspace is encoded whole: where EncodeDataspaceMessage is given the Dimensions of a DataspaceMessage, it is given the MaxDims of the same message (nil there drops the maximum dimensions of every attribute that has them)"
+	shareRule([]string{"C11", "C02"}, txt, "C11", func(c *Ctx, r *Result, id string) {
+		n := 0
+		for _, fn := range c.LibFuncs() {
+			k := 0
+			for _, site := range callsIn(fn) {
+				if c.calleeName(site) != "core.EncodeDataspaceMessage" {
+					continue
+				}
+				args := site.Common().Args
+				if len(args) < 2 || !valueReadsField(args[0], "core.DataspaceMessage.Dimensions", 0) {
+					continue
+				}
+				n++
+				k++
+				r.Check(valueReadsField(args[1], "core.DataspaceMessage.MaxDims", 0), id, fmt.Sprintf("%s#dataspace-encoded-with-its-maximum-%d", c.Name(fn), k), c.InstrPos(site.(ssa.Instruction)), "the second argument is the MaxDims field of a DataspaceMessage")
+			}
+		}
+		if n < 1 {
+			r.Shortfall(c, id, id+": no call of EncodeDataspaceMessage on the fields of a DataspaceMessage")
+		}
+	})
+
+	// C12: one notion of 'string' in the vlen handler
+	id12 := nextRuleID("C12")
+	registry["C12"].Meta.Rules[id12] = "the variable-length handler has one notion of 'string': every comparison of vlenTypeHandler.baseType with a constant in EncodeDatatypeMessage uses the same constant (the base type is chosen under baseType == 0; a string flag set under baseType == VLenString, 500, is never set: a VLenString dataset reopens as a sequence)"
+	registry["C12"].Rules = append(registry["C12"].Rules, func(c *Ctx, r *Result) {
+		fn := c.FnOpt("hdf5.vlenTypeHandler.EncodeDatatypeMessage")
+		cons := "hdf5.vlenTypeHandler.EncodeDatatypeMessage#one-constant-for-string"
+		if fn == nil {
+			r.Undec(id12, cons, "", "function not found")
+			return
+		}
+		seen := map[int64]bool{}
+		var at ssa.Instruction
+		instrs(fn, func(in ssa.Instruction) {
+			bo, ok := in.(*ssa.BinOp)
+			if !ok || (bo.Op != token.EQL && bo.Op != token.NEQ) || !valueReadsField(bo.X, "hdf5.vlenTypeHandler.baseType", 0) {
+				return
+			}
+			if k, isK := constInt(bo.Y); isK {
+				seen[k] = true
+				at = in
+			}
+		})
+		if len(seen) == 0 {
+			r.Undec(id12, cons, c.Pos(fn.Pos()), "no comparison of baseType with a constant")
+			return
+		}
+		r.Check(len(seen) == 1, id12, cons, c.InstrPos(at), fmt.Sprintf("%d different constants are compared with baseType", len(seen)))
+	})
+
+	// C13 / C01: expandEdgeChunk pads every rank
+	txt = "every clipped chunk is padded, whatever its rank: in expandEdgeChunk a comparison of the rank (len of nominal / actual) with a constant is an equality test with 0 (n <= 1 for n == 0 leaves the boundary chunk of a one-dimensional dataset at its clipped size: after a grow it can no longer be read)"
+	shareRule([]string{"C13", "C01", "C05"}, txt, "C13", func(c *Ctx, r *Result, id string) {
+		fn := c.FnOpt("hdf5.expandEdgeChunk")
+		if fn == nil {
+			r.Undec(id, "hdf5.expandEdgeChunk#rank-test", "", "function not found")
+			return
+		}
+		n := 0
+		instrs(fn, func(in ssa.Instruction) {
+			bo, ok := in.(*ssa.BinOp)
+			if !ok {
+				return
+			}
+			switch bo.Op {
+			case token.EQL, token.NEQ, token.LSS, token.LEQ, token.GTR, token.GEQ:
+			default:
+				return
+			}
+			call, isCall := stripConv(bo.X).(*ssa.Call)
+			if !isCall {
+				return
+			}
+			b, isB := call.Call.Value.(*ssa.Builtin)
+			if !isB || b.Name() != "len" {
+				return
+			}
+			if _, isParam := call.Call.Args[0].(*ssa.Parameter); !isParam {
+				return
+			}
+			k, isK := constInt(bo.Y)
+			if !isK {
+				return
+			}
+			// only tests that decide an exit, not loop bounds
+			if _, isIf := in.Block().Instrs[len(in.Block().Instrs)-1].(*ssa.If); !isIf {
+				return
+			}
+			n++
+			r.Check((bo.Op == token.EQL || bo.Op == token.NEQ) && k == 0, id, fmt.Sprintf("hdf5.expandEdgeChunk#rank-test-%d", n), c.InstrPos(bo), fmt.Sprintf("the rank is compared %s %d", bo.Op, k))
+		})
+		if n < 1 {
+			r.Undec(id, "hdf5.expandEdgeChunk#rank-test", c.Pos(fn.Pos()), "no test of the rank against a constant")
+		}
+	})
+}
